@@ -72,6 +72,26 @@ OpsOn(s) ==
   \cup (IF "matmul" \in Alphabet THEN
      {[k |-> "op", h |-> h, f |-> "matmul", a |-> <<[h |-> a], [h |-> b]>>] : a \in hs, b \in hs}
    ELSE {})
+  \cup (IF "cum" \in Alphabet THEN
+     {[k |-> "op", h |-> h, f |-> f, a |-> <<[h |-> a]>>, kw |-> [axis |-> <<-1>>]] :
+        f \in {"cumsum", "cumprod"}, a \in {x \in hs : Len(s.H[x].sh) >= 1}}
+     \cup {[k |-> "op", h |-> h, f |-> "cumsum", a |-> <<[h |-> a]>>] : a \in hs}
+   ELSE {})
+  \cup (IF "act" \in Alphabet THEN
+     {[k |-> "op", h |-> h, f |-> "leaky_relu", a |-> <<[h |-> a]>>, p1 |-> <<1, 2>>] : a \in hs}
+     \cup {[k |-> "op", h |-> h, f |-> "hard_tanh", a |-> <<[h |-> a]>>, p1 |-> Q(-1), p2 |-> Q(2)] : a \in hs}
+     \cup {[k |-> "op", h |-> h, f |-> "soft_sign", a |-> <<[h |-> a]>>] : a \in hs}
+   ELSE {})
+  \cup (IF "ein" \in Alphabet THEN
+     {[k |-> "op", h |-> h, f |-> "einsum", a |-> <<[h |-> a], [h |-> b]>>, subs |-> <<<<0>>, <<0>>>>, out |-> <<>>] :
+        a \in {x \in hs : Len(s.H[x].sh) = 1}, b \in {x \in hs : Len(s.H[x].sh) = 1}}
+     \cup {[k |-> "op", h |-> h, f |-> "einsum", a |-> <<[h |-> a], [h |-> b]>>, subs |-> <<<<0, 1>>, <<1>>>>, out |-> <<0>>] :
+        a \in {x \in hs : Len(s.H[x].sh) = 2}, b \in {x \in hs : Len(s.H[x].sh) = 1}}
+     \cup {[k |-> "op", h |-> h, f |-> "einsum", a |-> <<[h |-> a], [h |-> b]>>, subs |-> <<<<0, 1>>, <<0, 1>>>>, out |-> <<1>>] :
+        a \in {x \in hs : Len(s.H[x].sh) = 2}, b \in {x \in hs : Len(s.H[x].sh) = 2}}
+     \cup {[k |-> "op", h |-> h, f |-> "maxpool", a |-> <<[h |-> a]>>, pool |-> <<2>>, stride |-> <<1>>] :
+        a \in {x \in hs : Len(s.H[x].sh) >= 1}}
+   ELSE {})
   \cup (IF "view" \in Alphabet THEN
      UNION {{[k |-> "op", h |-> h, f |-> "getitem", a |-> <<[h |-> a]>>, ix |-> ix] : ix \in Indices(s.H[a].sh)} : a \in hs}
      \cup {[k |-> "op", h |-> h, f |-> "T", a |-> <<[h |-> a]>>] : a \in {x \in hs : Len(s.H[x].sh) = 2}}
@@ -95,6 +115,10 @@ WellTyped(s, c) ==
          BCompat(OpSh(s, c.a[1]), OpSh(s, c.a[2])) /\ Size(BShape(OpSh(s, c.a[1]), OpSh(s, c.a[2]))) <= 6
     [] c.k = "op" /\ c.f = "matmul" -> MatmulOK(OpSh(s, c.a[1]), OpSh(s, c.a[2]))
     [] c.k = "op" /\ c.f = "getitem" -> IndexOK(c.ix, s.H[c.a[1].h].sh)
+    [] c.k = "op" /\ c.f = "einsum" -> EinOK(c.subs, [i \in 1..Len(c.a) |-> OpSh(s, c.a[i])], c.out)
+    [] c.k = "op" /\ c.f = "maxpool" ->
+         LET sh == OpSh(s, c.a[1]) n == sh[Len(sh)] cs == OpCells(s, c.a[1]) IN
+         n >= 2 /\ \A p \in 1..Len(cs) : (p % n # 0) => cs[p].v # cs[p + 1].v      \* unique maximum in every window of two
     [] c.k = "setitem" -> IndexOK(c.ix, s.H[c.t].sh) /\
                           AssignOK(OpSh(s, c.val), IndexShape(c.ix, s.H[c.t].sh)) /\
                           ((c.ix.t = "basic" /\ AllInts(c.ix.items, s.H[c.t].sh)) => OpSh(s, c.val) = <<>>)
